@@ -247,6 +247,14 @@ def pair_cases(rng):
         p = copy.deepcopy(skel)
         p.files[1].decls.append(("comment", "//go:generate shoot " + " ".join([cmd] + xf + ["-type=*"])))
         cases.append(Case(p, cmd, xf + ["-type=*"], None, "group"))
+        # source files that begin with a foreign "Code generated ... DO NOT EDIT." header, a licence block, a build tag
+        skel = cligen.gen_header_pkg(rng, cmd)
+        for fname, extra in [("wire_gen.go", []), ("api.pb.go", ["-sep"]), ("mock_gen.go", []), ("lic.go", rng.choice([[], ["-sep"]]))]:
+            cases.append(Case(copy.deepcopy(skel), cmd, xf + ["-file=" + fname] + extra, None, "header"))
+        for extra in ([], ["-sep"]):
+            p = copy.deepcopy(skel)
+            p.files[3].decls.insert(0, ("comment", "//go:generate shoot " + " ".join([cmd] + xf + ["-type=*"] + extra)))
+            cases.append(Case(p, cmd, xf + ["-type=*"] + extra, None, "header"))
     return cases
 
 
@@ -785,6 +793,8 @@ def main(run):
             "deterministic: type group mixing ineligible and eligible specs / dotted base name / renamed import / "
             "generate line in a declaration-free doc.go / local type of an earlier file shadowing a named type x 4 subcommands":
                 sum(1 for k in cases if k.tag == "group"),
+            "deterministic: listing modes on source files that begin with a foreign `Code generated ... DO NOT EDIT.` header "
+            "(wire / protoc / mockgen), a licence block, a build tag x 4 subcommands": sum(1 for k in cases if k.tag == "header"),
             "map -to (not modelled, must be 0)": sum(1 for c_ in classes if c_ == 7),
         },
         "findings_measured": measured,
